@@ -10,7 +10,7 @@ import torch
 from pydrobert.torch import command_line as C
 
 from mc.oracles import cli as O
-from checks._c17_common import (IDS, IOS, tok2id, strings, io_flags, distractor_names, save, schedules, real, wipe,
+from checks._c17_common import (IDS, IOS, tok2id, strip, strings, io_flags, distractor_names, save, schedules, real, wipe,
                                 fresh_process)
 from checks._c17_seams import run_cmd, ok, snapshot, snap_file, write, read
 
@@ -50,6 +50,10 @@ def cases_er(tier, seed):
     for corp in corp1[: 169] + corp3:
         for lst, id2token, batch in itertools.product(LISTS, (False, True), (1, 100)):
             yield dict(base, utts=utts(corp), id2token=id2token, swap=id2token and batch == 1, batch=batch, **lst)
+    for corp in corp3:  # a swap whose source is also ignored; batch size equal to the corpus
+        for id2token in (False, True):
+            yield dict(base, utts=utts(corp), id2token=id2token, batch=3, replace={"a": "b", "b": "a"}, ignore=["a"])
+            yield dict(base, utts=utts(corp), id2token=id2token, batch=3, replace={"a": "b"}, ignore=["a", "b"])
     for corp in corp3[5:21]:
         for (prefix, suffix), (layout, out) in itertools.product(IOS, (("sub", "stdout"), ("explicit", "stdout"),
                                                                        ("explicit", "file"))):
@@ -303,7 +307,7 @@ def eval_sub(env, case):
             env.viol(dict({"api": api, "symptom": "missing-subdirectory"}, **flags), {"subdir": sd, "observed": base})
             return
         got_sets[sd] = sorted(k for k, v in base.items() if v != "dir" and os.path.dirname(k) == sd)
-    sel = sorted(os.path.basename(k)[len(prefix): -len(suffix)] for k in got_sets[subdirs[0]])
+    sel = sorted(strip(os.path.basename(k), prefix, suffix) for k in got_sets[subdirs[0]])
     if isinstance(want, tuple):
         good = len(sel) == want[1] and len(set(sel)) == len(sel) and set(sel) <= set(ids)
     else:
